@@ -212,7 +212,9 @@ def unpriv(mon, spec):
             ctx = mon.ctx(ctxkey)
             ns = rng.randrange(2) if ctx.cfg['have_security_ext'] else 0
             mode = rng.choice([m for m in ctx.legal_modes(ns) if m != 'usr'])
-            rn, rt, rm = rng.sample([0, 1, 2, 3, 4, 5, 6, 7, 8, 9, 10, 11, 12, 14, 13, 13], 3)
+            rn, rt, rm = rng.sample([0, 1, 2, 3, 4, 5, 6, 7, 8, 9, 10, 11, 12, 14], 3)
+            if rng.random() < 0.2:
+                rn = 13                      # the SP as base (next to the POP / PUSH alias encodings)
             protected = rng.random() < 0.6
             is_store = name.startswith('STR')
             # a third of the cases: no all-covering region; privileged code runs from the background map (SCTLR.BR = 1), and
